@@ -215,5 +215,5 @@ from .C02 import AsyncScope as _AsyncScope, TaskGroupExit as _TaskGroupExit, var
 # after it, not before) is the completion protocol of ScopeMetrics: the C09 contracts of _finish / _complete_if_able
 from .C09 import CompleteIfAble as _CIA, Finish as _Finish      # noqa: E402
 
-CONTRACTS = [StreamFactory(), StreamBody(), _variant(_AsyncScope, "C11", ("C02-",)), _variant(_TaskGroupExit, "C11", ("C02-",)),
+CONTRACTS = [StreamFactory(), StreamBody(), _variant(_AsyncScope, "C11", ("C02-", "C01-P6")), _variant(_TaskGroupExit, "C11", ("C02-",)),
              _variant(_CIA, "C11", ("",)), _variant(_Finish, "C11", ("",))]
